@@ -23,6 +23,8 @@ CLAIMED = {
          "guard-dominance, ordering and typestate rules over clang CFGs"),
  "C18": ("Static rules over linked_hash_table.c and the three cache files: eviction victim provenance per policy (value-flow from the iteration list's front / back->prev of the same table to the removed key), eviction exactly on count > max after the insertion and under no other condition, vtable policy wiring (LRU lookups refresh, FIFO/LIFO do not), put's overwrite order and new-node fields, element destructor order and destructor wiring. Policy outcomes over histories are not decided.",
          "value-flow provenance, guard-dominance and ordering rules over clang CFGs + constant vtable tables"),
+ "C02": ("Static rules over source/hash_table.c and lookup3.inl: who may call the destructors and under which guards, hand-over XOR destroy on removal, entry_count pairing, load check before admission, resize clamps max_load below size and mask = size-1 (numeric abstract interpretation), every hash code >= 1, NULL-safe equality tests identity first, no stale table state after a resize, every slot subscript below size (NUM with the table's validity predicate), iterator-delete limit adjustment decided as an exact two-sided numeric condition, alignment variants of the key hash agree. Map equivalence under collisions is not decided.",
+         "guard-dominance, typestate and use-after-invalidate rules + numeric abstract interpretation over clang CFGs"),
 }
 NA_DEFAULT = "check not built yet in this commit (see DESIGN.md section 9 build order)"
 NA = {}
